@@ -314,11 +314,16 @@ def random_cases(draw):
     for _ in range(draw(st.integers(1, 8))):
         comps = draw(st.lists(comp, min_size=0, max_size=7))
         path = sep.join(comps)
-        lead = draw(st.integers(0, 5))
+        lead = draw(st.integers(0, 6))
         if lead == 0:
             path = sep + texts[0] + (sep + path if comps else "")
         elif lead == 1:
             path = sep + path
+        elif lead == 2:
+            # a first component that merely BEGINS or ENDS like the root's name (root name glued to a child name, '.', '..')
+            glue = draw(st.sampled_from(texts + [".", "..", "x"]))
+            first = texts[0] + glue if draw(st.booleans()) else glue + texts[0]
+            path = sep + first + (sep + path if comps else "")
         if draw(st.integers(0, 5)) == 0:
             path = path + sep
         paths.append([draw(st.integers(0, size - 1)), path])
